@@ -176,6 +176,23 @@ func (mc *Chain) processVerifyBlock(ctx context.Context, b *block.Block) error {
 		return err
 	}
 
+	// Verification tickets attached to a proposal come from the sender and have not been checked:
+	// keep only those that verify on their own (a registered miner of the round signing this block
+	// hash, one per verifier). Otherwise they are merged into the block as is and counted towards
+	// the notarization threshold.
+	if attached := b.VerificationTickets; len(attached) > 0 {
+		b.VerificationTickets = nil
+		for _, vt := range attached {
+			if vt == nil {
+				continue
+			}
+			if err := mc.VerifyTickets(ctx, b.Hash, []*block.VerificationTicket{vt}, b.Round); err != nil {
+				continue
+			}
+			b.AddVerificationTicket(vt)
+		}
+	}
+
 	if b.Round < mc.GetCurrentRound()-1 {
 		logging.Logger.Debug("verify block - round mismatch",
 			zap.Int64("current_round", mc.GetCurrentRound()),
